@@ -7042,6 +7042,12 @@ impl<'a> Tyck<'a> for TyEnvT<su::TermId> {
                     let TermAnnId::Type(ty, _kd) = param else {
                         tycker.err_k(TyckError::SortMismatch, std::panic::Location::caller())?
                     };
+                    if arms_vec.iter().any(|(seen, _): &(_, ss::TypeId)| *seen == name) {
+                        tycker.err_k(
+                            TyckError::Expressivity("repeated data constructor"),
+                            std::panic::Location::caller(),
+                        )?
+                    }
                     arms_vec.push_back((name, ty));
                 }
                 let term = crate::query::InternedTerm::new(tycker.db, self.inner);
@@ -7087,6 +7093,12 @@ impl<'a> Tyck<'a> for TyEnvT<su::TermId> {
                     let TermAnnId::Type(ty, _kd) = out else {
                         tycker.err_k(TyckError::SortMismatch, std::panic::Location::caller())?
                     };
+                    if arms_vec.iter().any(|(seen, _): &(_, ss::TypeId)| *seen == name) {
+                        tycker.err_k(
+                            TyckError::Expressivity("repeated codata destructor"),
+                            std::panic::Location::caller(),
+                        )?
+                    }
                     arms_vec.push_back((name, ty));
                 }
                 let term = crate::query::InternedTerm::new(tycker.db, self.inner);
